@@ -2,6 +2,8 @@ package harness
 
 import (
 	"encoding/json"
+	"fmt"
+	"time"
 	"io"
 	"log"
 	"os"
@@ -38,5 +40,23 @@ func TestMain(m *testing.M) {
 		}
 		KnownFindings = doc.Findings
 	}
+	// watchdog (real time, outside any bubble): a goroutine that spins without
+	// ever reaching a scheduling point would leave the simulator waiting for
+	// quiescence for ever
+	go func() {
+		last, since := int64(-1), time.Now()
+		for {
+			time.Sleep(2 * time.Second)
+			hb := simrt.Heartbeat.Load()
+			if hb != last || simrt.Live() == nil {
+				last, since = hb, time.Now()
+				continue
+			}
+			if time.Since(since) > 90*time.Second {
+				fmt.Fprintf(realStderr, "fatal error: watchdog: the simulation made no progress for 90s (a goroutine runs without reaching a scheduling point)\n\n%s\n", simrt.AllStacks())
+				os.Exit(3)
+			}
+		}
+	}()
 	os.Exit(m.Run())
 }
